@@ -400,6 +400,29 @@ func (ts *typestate) checkGetter(rule string) {
 			r.OK(rule, c, "-", fmt.Sprintf("no effects; emits cached slot %d", t.emitted))
 		}
 	}
+	// the message a state emits is a function of the handshake state alone: two outcomes of Handshake()
+	// from one state (they can differ only through untracked inputs such as the data counter) must emit
+	// the same cached slot — otherwise Handshake() stops being idempotent once data has been sent
+	emits := map[tsState]map[int]bool{}
+	for _, t := range ts.trans {
+		if t.op != "Handshake" || t.out.Panic {
+			continue
+		}
+		if emits[t.from] == nil {
+			emits[t.from] = map[int]bool{}
+		}
+		emits[t.from][t.emitted] = true
+	}
+	for st, set := range emits {
+		if len(set) > 1 {
+			var ks []int
+			for k := range set {
+				ks = append(ks, k)
+			}
+			sort.Ints(ks)
+			r.Violation(rule, "Handshake in "+st.String()+" emits one message", r.P.Pos(ts.handshake.Pos()), fmt.Sprintf("in state %s Handshake() returns different messages (cached slots %v, -1 = nothing) depending on something other than the handshake state (the data counter): after the peer's handshake message was lost and data was sent, the retransmission stops and the peer never completes", st, ks))
+		}
+	}
 	// each cache slot is written at most once
 	for _, t := range ts.trans {
 		for _, e := range t.out.Effects {
